@@ -566,3 +566,4 @@ Proof.
   destruct (modn_mont_mul_spec (val a) (val b) ltac:(lia) ltac:(lia)) as (B & E).
   rewrite V. auto.
 Qed.
+
